@@ -1910,6 +1910,13 @@ where
 		keychain_mask: Option<&SecretKey>,
 		frequency: Duration,
 	) -> Result<(), Error> {
+		{
+			// Test keychain mask now: the updater thread would only find out at its first
+			// refresh, fail there and leave the updater flagged as running
+			let mut w_lock = self.wallet_inst.lock();
+			let w = w_lock.lc_provider()?.wallet_inst()?;
+			let _ = w.keychain(keychain_mask)?;
+		}
 		let updater_inner = self.updater.clone();
 		let tx_inner = {
 			let t = self.status_tx.lock();
